@@ -87,6 +87,14 @@ Theorem C15_sink_value_is_sum_of_records : forall sc s d,
   d_value_received (getd (fst s) d) = d_value_received (getd (fq_world sc) d) + sumrec L_RECEIVED d (datalog (snd s)).
 Proof. exact sink_value_is_sum_of_records. Qed.
 
+(** [d_accepts] is a ghost counter of the model: it moves exactly when a device takes an item in (Model/Floor.v, [t_accept]) *)
+Theorem C15_one_received_record_per_acceptance : forall sc s d,
+  f_out (fq_world sc) = [] -> reach_in sc s -> amem d (f_devs (fst s)) = true ->
+  d_accepts (getd (fst s) d) = d_accepts (getd (fq_world sc) d) + cntrec L_RECEIVED d (datalog (snd s)).
+Proof. exact accepts_is_received_record_count. Qed.
+Theorem C15_accept_counter_def : forall nw it x, d_accepts (t_accept nw it x) = 1 + d_accepts x.
+Proof. intros nw it x. unfold t_accept, dev_set_wait. destruct (d_wait_since _); reflexivity. Qed.
+
 (** the premise holds for every scenario the decoder builds *)
 Theorem C15_decoded_scenarios_start_clean : forall l, f_out (fq_world (decode_fl_scn l)) = [].
 Proof. exact decoded_no_pending_output. Qed.
@@ -98,6 +106,7 @@ Proof. exact rlab_reserve. Qed.
 Print Assumptions C15_supplied_counter_is_record_count.
 Print Assumptions C15_last_level_record_is_level.
 Print Assumptions C15_sink_value_is_sum_of_records.
+Print Assumptions C15_one_received_record_per_acceptance.
 Print Assumptions C15_decoded_scenarios_start_clean.
 Print Assumptions C15_manager_labels.
 
@@ -139,3 +148,8 @@ Proof.
   split; [reflexivity|]. split; [apply reach_ok_in, fx_steps_reach; [exact R0|vm_compute; reflexivity]|].
   repeat split; vm_compute; reflexivity.
 Qed.
+
+Example C15_accepts_nonvacuous :
+  map (fun d => (d_accepts (getd (fst (fx_steps c15v_sc 40 c15v_s0)) d), cntrec L_RECEIVED d (datalog (snd (fx_steps c15v_sc 40 c15v_s0))))) [2; 3; 4]
+  = [(9, 9); (6, 6); (5, 5)].
+Proof. vm_compute. reflexivity. Qed.
